@@ -66,3 +66,122 @@ Theorem C16_grid_adjacency_symmetric :
     In q (nbrs shape per p) -> In p (nbrs shape per q).
 Proof. exact nbrs_sym. Qed.
 Print Assumptions C16_grid_adjacency_symmetric.
+
+(* ------------------------------------------------------------------------------------------
+   Relabelling the pixels.  tsim g t t' : t' is the structure t on the pixels mapped by g -
+   the same own pixels with the same values, children that correspond one to one;
+   identifiers, the order of own pixels and the order of children are not compared (they are
+   naming: the final identifiers go by smallest pixel index, which a relabelling changes). *)
+From Dendro Require Import PixelMap GridIso GridSym.
+
+Theorem C16_tsim_means_same_pixels :
+  forall g t t', tsim g t t' ->
+    Permutation (map (gpv g) (town t)) (town t') /\ rsim g (tkids t) (tkids t') /\
+    is_leaf t' = is_leaf t /\ vmax t' = vmax t /\
+    (forall x, In x (region t') <-> exists q, In q (region t) /\ x = g q).
+Proof.
+  intros g t t' H. split; [exact (tsim_own g t t' H)|]. split; [exact (tsim_kids g t t' H)|].
+  split; [exact (tsim_leaf g t t' H)|]. split; [exact (tsim_vmax g t t' H)|]. intros x. exact (tsim_region_In g t t' x H).
+Qed.
+Print Assumptions C16_tsim_means_same_pixels.
+
+(* every isomorphism of the adjacency graph on the processed pixels commutes with the whole
+   construction loop, for every processing order (criteria that do not look at positions) *)
+Theorem C16_graph_isomorphism :
+  forall (g : Z -> Z) indep indep',
+    (forall o o' v, Permutation (map (gpv g) o) o' -> indep' o' v = indep o v) ->
+  forall (dom : Z -> Prop) adj adj',
+    (forall p q, dom p -> dom q -> (In (g q) (adj' (g p)) <-> In q (adj p))) ->
+  forall order, (forall pv, In pv order -> dom (fst pv)) ->
+    rsim g (run adj indep order) (run adj' indep' (map (gpv g) order)).
+Proof. exact run_pixel_map. Qed.
+Print Assumptions C16_graph_isomorphism.
+
+(* min_delta, min_npix, min_peak, min_sum are such criteria *)
+Theorem C16_builtin_criteria_ignore_positions :
+  forall g cs o o' v, (forall l, ~ In (Seeds l) cs) ->
+    Permutation (map (gpv g) o) o' -> indep_of cs o' v = indep_of cs o v.
+Proof. exact builtin_indep_rel. Qed.
+Print Assumptions C16_builtin_criteria_ignore_positions.
+
+(* Dendrogram.compute on two grids related by an isomorphism g, the second array carrying
+   the same above-threshold values at the mapped pixels and nothing else above the threshold
+   (padding below threshold or NaN): pairwise distinct values => the same hierarchy *)
+Theorem C16_relabelled_hierarchy :
+  forall shape shape' per per' g, giso shape per shape' per' g ->
+  forall vals vals' minv cs,
+    (forall pv, In pv (kept vals minv) -> inrange shape (fst pv)) ->
+    carried g (kept vals minv) (kept vals' minv) ->
+    (forall l, ~ In (Seeds l) cs) ->
+    NoDup (map snd (kept vals minv)) ->
+    rsim g (compute shape (AdjGrid per) vals minv cs) (compute shape' (AdjGrid per') vals' minv cs).
+Proof. exact compute_relabelled. Qed.
+Print Assumptions C16_relabelled_hierarchy.
+
+(* arbitrary values (ties): the parentless regions still correspond *)
+Theorem C16_relabelled_trunk_regions_with_ties :
+  forall shape shape' per per' g, giso shape per shape' per' g ->
+  forall vals vals' minv cs,
+    (forall pv, In pv (kept vals minv) -> inrange shape (fst pv)) ->
+    carried g (kept vals minv) (kept vals' minv) ->
+    (forall l, ~ In (Seeds l) cs) ->
+    allpos shape' ->
+    forall r' x', In r' (run (nbrs shape' per') (indep_of cs) (order_of (kept vals' minv))) -> In x' (region r') ->
+    exists r, In r (run (nbrs shape per) (indep_of cs) (order_of (kept vals minv))) /\
+              forall y', In y' (region r') <-> exists y, In y (region r) /\ y' = g y.
+Proof. exact roots_relabelled. Qed.
+Print Assumptions C16_relabelled_trunk_regions_with_ties.
+
+(* the relabellings of the property ARE isomorphisms, in any number of dimensions and along
+   ANY axis a (axis_ok: the two shapes agree except at axis a; 0 = outermost):
+   flipping an axis (periodic or not) *)
+Theorem C16_flip_any_axis :
+  forall a shape per n b, 0 < n -> axis_ok a shape shape per per n n b b ->
+    giso shape per shape per (axis_map a shape shape (flip n)).
+Proof. intros a shape per n b Hn H. exact (giso_axis_map a shape shape per per n n b b (flip n) (sigma_ok_flip n b Hn) H). Qed.
+(* padding a (non-periodic) axis with w cells before and w' after *)
+Theorem C16_padding_any_axis :
+  forall a shape shape' per n w w', 0 < n -> 0 <= w -> 0 <= w' ->
+    axis_ok a shape shape' per per n (n + w + w') false false ->
+    giso shape per shape' per (axis_map a shape shape' (pad w)).
+Proof.
+  intros a shape shape' per n w w' Hn Hw Hw' H.
+  exact (giso_axis_map a shape shape' per per n (n + w + w') false false (pad w) (sigma_ok_pad n w w' Hn Hw Hw') H).
+Qed.
+(* a new axis of length one at any position: flat indices do not change *)
+Theorem C16_unit_axis_any_position :
+  forall a shape per, allpos shape -> length per = length shape ->
+    giso shape per (inserted a 1 shape) (inserted a false per) (fun p => p).
+Proof. exact giso_unit_at. Qed.
+(* exchanging any two neighbouring axes a, a+1 (every axis permutation is a product of these) *)
+Theorem C16_exchange_neighbouring_axes :
+  forall a shape per, allpos shape -> (S a < length shape)%nat -> length per = length shape ->
+    giso shape per (swapped a shape) (swapped a per) (swap_at a shape).
+Proof. exact giso_swap_at. Qed.
+(* isomorphisms compose *)
+Theorem C16_isomorphisms_compose :
+  forall s0 p0 s1 p1 s2 p2 g1 g2,
+    giso s0 p0 s1 p1 g1 -> giso s1 p1 s2 p2 g2 -> giso s0 p0 s2 p2 (fun p => g2 (g1 p)).
+Proof. exact giso_compose. Qed.
+Print Assumptions C16_flip_any_axis.
+Print Assumptions C16_padding_any_axis.
+Print Assumptions C16_unit_axis_any_position.
+Print Assumptions C16_exchange_neighbouring_axes.
+
+(* non-vacuity: flipping the middle axis of a 2 x 3 x 2 array *)
+Example C16_flip_example :
+  giso [2; 3; 2] [false; false; false] [2; 3; 2] [false; false; false] (axis_map 1 [2; 3; 2] [2; 3; 2] (flip 3)) /\
+  map (axis_map 1 [2; 3; 2] [2; 3; 2] (flip 3)) [0; 1; 2; 3; 4; 5; 6; 7; 8; 9; 10; 11] = [4; 5; 2; 3; 0; 1; 10; 11; 8; 9; 6; 7].
+Proof.
+  split; [|vm_compute; reflexivity]. apply C16_flip_any_axis with (b := false); [reflexivity|].
+  cbn. repeat split; try reflexivity. repeat constructor.
+Qed.
+
+(* adjacency in decomposed form: the statement all of the above rest on *)
+Theorem C16_adjacency_decomposed :
+  forall n r b pr c p' d q',
+    allpos r -> 0 <= c < n -> 0 <= d < n -> 0 <= p' < size r -> 0 <= q' < size r ->
+    (In (d * size r + q') (nbrs (n :: r) (b :: pr) (c * size r + p'))
+     <-> (q' = p' /\ adj1 n b c d) \/ (d = c /\ In q' (nbrs r pr p'))).
+Proof. exact nbrs_decomp. Qed.
+Print Assumptions C16_adjacency_decomposed.
